@@ -226,7 +226,7 @@ func checkC05(p *Prog, r *Result, tier string) {
 	checkDistinctCoresPerPlan(p, r)
 	// SRC3: wherever the plugin plans pieces for a request and records a workload resource in the same function, the
 	// recorded CPU amounts are fields of the very request object the planner was given
-	r.min("SRC3", 2)
+	r.min("SRC3", 4)
 	for _, fn := range p.sortedFuncs("resource/plugins/cpumem") {
 		if fn.Body == nil || fn.Lit != nil || strings.Contains(fn.Name, "/schedule") {
 			continue
@@ -273,6 +273,77 @@ func checkC05(p *Prog, r *Result, tier string) {
 				why = "the recorded resource does not set CPURequest and CPULimit"
 			}
 			r.check2(why, "SRC3", key, p.pos(cl), "CPURequest/CPULimit: <planned request>.CPURequest/.CPULimit")
+			// SRC4: the cores recorded are, on every path, the cores of a plan the planner returned for that request
+			var plansObj types.Object
+			fn.inspectBody(func(y ast.Node) bool {
+				if as, ok := y.(*ast.AssignStmt); ok && len(as.Lhs) == 1 && len(as.Rhs) == 1 {
+					if c, ok := unparen(as.Rhs[0]).(*ast.CallExpr); ok && fn.Callee(c) != nil && objName(fn.Callee(c)) == "resource/plugins/cpumem/schedule.GetCPUPlans" {
+						plansObj = fn.objOf(as.Lhs[0])
+					}
+				}
+				return true
+			})
+			isPlanElem := func(e ast.Expr) bool {
+				e = unparen(e)
+				if ix, ok := e.(*ast.IndexExpr); ok {
+					return fn.objOf(ix.X) == plansObj
+				}
+				id, ok := e.(*ast.Ident)
+				if !ok {
+					return false
+				}
+				o := fn.objOf(id)
+				okDef := false
+				fn.inspectBody(func(y ast.Node) bool {
+					switch z := y.(type) {
+					case *ast.RangeStmt:
+						if z.Value != nil && fn.objOf(z.Value) == o && fn.objOf(z.X) == plansObj {
+							okDef = true
+						}
+					case *ast.AssignStmt:
+						if len(z.Lhs) == 1 && len(z.Rhs) == 1 && fn.objOf(z.Lhs[0]) == o {
+							if ix, ok := unparen(z.Rhs[0]).(*ast.IndexExpr); ok && fn.objOf(ix.X) == plansObj {
+								okDef = true
+							}
+						}
+					}
+					return true
+				})
+				return okDef
+			}
+			fromPlan := func(e ast.Expr) bool {
+				sel, ok := unparen(e).(*ast.SelectorExpr)
+				return ok && sel.Sel.Name == "CPUMap" && isPlanElem(sel.X)
+			}
+			why4 := ""
+			for _, el := range cl.Elts {
+				kv, ok := el.(*ast.KeyValueExpr)
+				if !ok || exprStr(kv.Key) != "CPUMap" {
+					continue
+				}
+				if fromPlan(kv.Value) {
+					continue
+				}
+				id, ok := unparen(kv.Value).(*ast.Ident)
+				if !ok {
+					why4 = "the recorded CPUMap is `" + exprStr(kv.Value) + "`, not the core map of a plan returned by the planner"
+					continue
+				}
+				o := fn.objOf(id)
+				fn.inspectBody(func(y ast.Node) bool {
+					as, ok := y.(*ast.AssignStmt)
+					if !ok {
+						return true
+					}
+					for i, l := range as.Lhs {
+						if fn.objOf(l) == o && i < len(as.Rhs) && !fromPlan(as.Rhs[i]) && !isNilIdent(as.Rhs[i]) {
+							why4 = "on some path the recorded core map is `" + exprStr(as.Rhs[i]) + "` (at " + p.pos(as) + "), not the core map of a plan the planner returned for the request whose amounts are recorded: the amount on record (after validation raised the request to the limit) and the pieces kept can differ"
+						}
+					}
+					return true
+				})
+			}
+			r.check2(why4, "SRC3", fn.Name+" / the cores recorded come from a plan computed for the recorded request", p.pos(cl), "CPUMap: <plan of GetCPUPlans(…, request)>.CPUMap on every path")
 			return true
 		})
 	}
